@@ -425,19 +425,9 @@ def c07(cases, res):
     lists = chooses = rejected = 0
     for case in cases:
         sys_ = case_dict(case)
-        stale_page = False
         for i, prev, s in steps_with_prev(case):
             o = opts_of(s)
             per = o[7]
-            # changing the page size or the user dictionary through the API while a list is open is
-            # outside C07's quantifier: the page index is re-validated at the next paging key
-            if s.op[0] in ("opts", "learn", "unlearn", "engine"):
-                stale_page = True
-            elif is_key(s) or s.op[0] in ("start", "cancel", "select", "jnext", "jprev", "jfirst", "jlast", "clear"):
-                stale_page = stale_page and state_of(s) == "Selecting" and s.op[0] not in ("start", "jnext", "jprev", "jfirst", "jlast") \
-                    and not (is_key(s) and key_code(s) in (KC["Left"], KC["Right"], KC["PageUp"], KC["PageDown"], KC["Space"], KC["Down"], 33, 34))
-            if state_of(s) != "Selecting":
-                stale_page = False
             if state_of(s) == "Selecting" and s.obs and s.obs.get("cands", "-") not in ("-", "PANIC"):
                 lists += 1
                 n_s, _, body = s.obs["cands"].partition(":")
@@ -448,7 +438,8 @@ def c07(cases, res):
                 tp, pg = int(s.obs["tp"]), int(s.obs["pg"])
                 if per > 0 and tp != (n + per - 1) // per:
                     out.append(fail("page-count", case, i, "total %d per page %d pages %d" % (n, per, tp)))
-                if n > 0 and pg >= tp and not stale_page:
+                # unconditional since fix 68d3a38 (page size / user dictionary may change while the list is open)
+                if per > 0 and ((n > 0 and pg >= tp) or (n == 0 and pg != 0)):
                     out.append(fail("page-index-out-of-range", case, i, "page %d of %d (%s)" % (pg, tp, " ".join(s.op))))
                 if s.snap.get("sel") == "P":
                     b, e = int(s.snap["begin"]), int(s.snap["end"])
